@@ -1,9 +1,14 @@
 (** C08 — forwarding headers (proxy/http_headers.go, proxy/http_proxy.go ServeHTTP), the code as
-    it is after the four repairs afbb806 (F-C08-2), 7dd13e1 (F-C08-1), 35aa11b (F-C08-3) and
-    216337c (F-C08-4): no finding region is left, every clause is proved for ALL client header
-    maps, requests and sane configurations; the four [_refuted] theorems are about the
-    [_unrepaired] definitions and each is paired with the same witness on the current model.
-    This file contains only statements, [exact], and [Print Assumptions]. *)
+    it is after the repairs afbb806 (F-C08-2), 7dd13e1 (F-C08-1), 35aa11b (F-C08-3), 216337c
+    (F-C08-4) and 25597b0 (F-C08-5, localPort and IPv6 literals).  Two findings are OPEN (regions 5
+    and 6 of Model/HeadersSpec.v): fabio believes a Forwarded / X-Forwarded-Proto header the client
+    sent when it supplies the other one, so the supplied header need not describe the client's
+    actual connection (C08_proto_from_forged_forwarded_refuted, C08_forwarded_from_forged_xfp_refuted);
+    outside those two syntactic regions every clause is proved for ALL client header maps, requests,
+    route targets and sane configurations (C08_all_clauses_on_domain).  The [_refuted] theorems of
+    the repaired findings are about the [_unrepaired] definitions, each paired with the same witness
+    on the current model.  All vocabulary of the statements is defined in Model/Headers.v and
+    Model/HeadersSpec.v.  This file contains only statements, [exact], and [Print Assumptions]. *)
 From Coq Require Import String List NArith ZArith Bool.
 From Fabio Require Import Lib.Outcome Lib.Bytes Model.Headers Model.HeadersSpec Proofs.Headers.
 Import ListNotations.
@@ -39,7 +44,10 @@ Theorem C08_tls_header_iff_tls : forall cfg strip r h',
 Proof. exact tls_header_iff_tls. Qed.
 Print Assumptions C08_tls_header_iff_tls.
 
-(* Strict-Transport-Security only on TLS connections (and always there when max-age > 0). *)
+(* Strict-Transport-Security only on TLS connections (and always there when max-age > 0).
+   Mechanism lemmas: they read off [add_response_headers]'s guard; the end-to-end statements
+   are C08_serve_hsts_only_tls / C08_serve_sts_clause below and the correspondence run (values the
+   upstream's own response carries are passed through and are not fabio's). *)
 Theorem C08_hsts_only_tls : forall cfg tls v, add_response_headers cfg tls = Some v -> tls = true.
 Proof. exact hsts_only_tls. Qed.
 Print Assumptions C08_hsts_only_tls.
@@ -59,6 +67,16 @@ Print Assumptions C08_forwarded_appends_only.
 
 (* Requests that carry neither X-Forwarded-Proto nor Forwarded: proto, port, host and the
    generated Forwarded describe the actual connection and the Host of the request. *)
+(* X-Forwarded-Proto absent => the supplied value describes the connection, for every request
+   outside region 5 (no "fresh" gating: a Forwarded header without proto= item is covered). *)
+Theorem C08_proto_supplied_on_domain : forall cfg strip r h',
+  add_headers cfg strip r = Ok h' ->
+  hget (r_hdr r) K_XFP = [] -> F_fwd_proto_trusted (r_hdr r) = false ->
+  off K_XFP (c_clientip cfg) -> off K_FWD (c_clientip cfg) -> off K_XFP (c_tlsheader cfg) ->
+  hfind h' K_XFP = Some [true_scheme (is_tls r)].
+Proof. exact proto_supplied. Qed.
+Print Assumptions C08_proto_supplied_on_domain.
+
 Theorem C08_proto_truthful : forall cfg strip r h',
   add_headers cfg strip r = Ok h' -> fresh (r_hdr r) = true ->
   off K_XFP (c_clientip cfg) -> off K_FWD (c_clientip cfg) -> off K_XFP (c_tlsheader cfg) ->
@@ -73,15 +91,69 @@ Theorem C08_port_truthful : forall cfg strip r h',
 Proof. exact port_truthful. Qed.
 Print Assumptions C08_port_truthful.
 
-Theorem C08_local_port_host_port : forall a p tls,
-  a <> [] -> ~ In 58 a -> p <> [] -> local_port (a ++ 58 :: p) tls = p.
+(* What [local_port] is, on every syntactic shape of the Host header (independent of its index
+   arithmetic; [spec_port] of Model/HeadersSpec.v is the same description as one function and is
+   what the correspondence run judges the real code against): *)
+(* host:port *)
+Theorem C08_port_host_port : forall a p tls,
+  a <> [] -> p <> [] -> ~ In 58 a -> ~ In 91 a -> ~ In 93 a -> ~ In 58 p -> ~ In 91 p -> ~ In 93 p ->
+  local_port (a ++ 58 :: p) tls = p.
 Proof. exact local_port_host_port. Qed.
-Print Assumptions C08_local_port_host_port.
+Print Assumptions C08_port_host_port.
 
-Theorem C08_local_port_no_colon : forall host tls,
-  ~ In 58 host -> local_port host tls = if tls then bs "443" else bs "80".
+(* [IPv6 literal, zone included]:port -- a may contain colons and '%' *)
+Theorem C08_port_bracketed : forall a p tls,
+  a <> [] -> p <> [] -> ~ In 91 a -> ~ In 93 a -> ~ In 58 p -> ~ In 91 p -> ~ In 93 p ->
+  local_port (91 :: a ++ 93 :: 58 :: p) tls = p.
+Proof. exact local_port_bracketed. Qed.
+Print Assumptions C08_port_bracketed.
+
+(* [IPv6 literal] without port: the connection's default *)
+Theorem C08_port_bracket_only : forall a tls, ~ In 93 a -> local_port (91 :: a ++ [93]) tls = default_port tls.
+Proof. exact local_port_bracket_only. Qed.
+Print Assumptions C08_port_bracket_only.
+
+Theorem C08_port_no_colon : forall host tls, ~ In 58 host -> local_port host tls = default_port tls.
 Proof. exact local_port_no_colon. Qed.
-Print Assumptions C08_local_port_no_colon.
+Print Assumptions C08_port_no_colon.
+
+(* several colons without brackets (a:b:c, ::1) *)
+Theorem C08_port_many_colons : forall a b p tls,
+  ~ In 58 p -> starts_bracket (a ++ 58 :: b ++ 58 :: p) = false ->
+  local_port (a ++ 58 :: b ++ 58 :: p) tls = default_port tls.
+Proof. exact local_port_many_colons. Qed.
+Print Assumptions C08_port_many_colons.
+
+(* empty host ":80", trailing colon "host:" *)
+Theorem C08_port_empty_host : forall p tls,
+  ~ In 58 p -> ~ In 91 p -> ~ In 93 p -> local_port (58 :: p) tls = default_port tls.
+Proof. exact local_port_empty_host. Qed.
+Print Assumptions C08_port_empty_host.
+
+Theorem C08_port_trailing_colon : forall a tls,
+  ~ In 58 a -> ~ In 91 a -> ~ In 93 a -> local_port (a ++ [58]) tls = default_port tls.
+Proof. exact local_port_trailing_colon. Qed.
+Print Assumptions C08_port_trailing_colon.
+
+(* F-C08-5, REPAIRED in /repo by 25597b0: localPort cut the port at the FIRST colon of the Host
+   ([local_port_unrepaired]); witness Host [::1]:8443. *)
+Theorem C08_port_ipv6_refuted :
+  let host := bs "[::1]:8443" in
+  local_port_unrepaired host false = bs ":1]:8443" /\ spec_port host false = bs "8443" /\
+  local_port_unrepaired (bs "[2001:db8::2]") true = bs "db8::2]" /\ spec_port (bs "[2001:db8::2]") true = bs "443".
+Proof. exact port_ipv6_refuted. Qed.
+Print Assumptions C08_port_ipv6_refuted.
+
+(* ... the current model and the independent spec on a list of Host values of every shape *)
+Theorem C08_port_ipv6_repaired :
+  map (fun h => local_port (bs h) false)
+      ["[::1]:8443"; "[2001:db8::2]"; "[fe80::1%eth0]:8080"; "a:b:c"; "host:"; ":80"; "example.com:8080"; "::1"; "[::1]:"; "x]:1"; ""]%string
+  = map bs ["8443"; "80"; "8080"; "80"; "80"; "80"; "8080"; "80"; "80"; "80"; "80"]%string /\
+  map (fun h => spec_port (bs h) false)
+      ["[::1]:8443"; "[2001:db8::2]"; "[fe80::1%eth0]:8080"; "a:b:c"; "host:"; ":80"; "example.com:8080"; "::1"; "[::1]:"; "x]:1"; ""]%string
+  = map bs ["8443"; "80"; "8080"; "80"; "80"; "80"; "8080"; "80"; "80"; "80"; "80"]%string.
+Proof. exact port_ipv6_repaired. Qed.
+Print Assumptions C08_port_ipv6_repaired.
 
 Theorem C08_host_truthful : forall cfg strip r h',
   add_headers cfg strip r = Ok h' -> hget (r_hdr r) K_XFH = [] -> r_host r <> [] ->
@@ -149,14 +221,15 @@ Proof. exact serve_sts_clause. Qed.
 Print Assumptions C08_serve_sts_clause.
 
 (* ALL clauses of the property (client-IP header, X-Forwarded-For, X-Real-Ip, TLS header,
-   X-Forwarded-Proto/-Port/-Host, Forwarded) hold at the upstream for every client header map a
-   client can produce, every request, every route target and every sane configuration: no
-   finding region is excluded any more (this is the boolean the correspondence run evaluates on
-   the real code's output; the name is kept from the time when regions were excluded). *)
+   X-Forwarded-Proto/-Port/-Host, Forwarded; no "fresh" gating) hold at the upstream for every
+   client header map a client can produce, every request, every route target and every sane
+   configuration outside the two OPEN finding regions 5 and 6 (syntactic on the client's
+   Forwarded / X-Forwarded-Proto headers).  This is the boolean the correspondence run evaluates
+   on the real code's output, there with [spec_port] for the expected port. *)
 Theorem C08_all_clauses_on_domain : forall cfg t uuid r peer up sts,
-  cfg_sane cfg = true -> wf_hdr (r_hdr r) = true ->
+  cfg_sane cfg = true -> wf_hdr (r_hdr r) = true -> no_region (r_hdr r) = true ->
   serve cfg t uuid r = Ok (up, sts) -> r_peer r = Some peer ->
-  all_hold (clauses cfg (r_hdr r) peer (r_host r) (is_tls r) true up) = true.
+  all_hold (clauses cfg (r_hdr r) peer (r_host r) (local_port (r_host r) (is_tls r)) (is_tls r) true up) = true.
 Proof. exact serve_clauses_on_domain. Qed.
 Print Assumptions C08_all_clauses_on_domain.
 
@@ -188,7 +261,7 @@ Theorem C08_clauses_nonvacuous :
   exists up sts,
     cfg_sane ex_cfg = true /\ wf_hdr hdr = true /\
     serve ex_cfg (ex_tgt []) [] r = Ok (up, sts) /\
-    all_hold (clauses ex_cfg hdr ex_peer (r_host r) false true up) = true /\
+    all_hold (clauses ex_cfg hdr ex_peer (r_host r) (spec_port (r_host r) false) false true up) = true /\
     hfind up K_XFF = Some [bs "1.2.3.4"] /\ hfind up (bs "X-Client-Ip") = Some [ex_peer] /\
     hfind up (bs "X-Tls") = None /\ hfind up K_XRI = Some [ex_peer].
 Proof. exact clauses_nonvacuous. Qed.
@@ -207,7 +280,7 @@ Theorem C08_xfh_after_host_rewrite_refuted :
     hget (r_hdr r) K_XFH = [] /\ hget (r_hdr r) K_XFPORT = [] /\
     F_host_rewrite t (r_host r) = true /\
     hfind up K_XFH = Some [bs "backend.internal:8500"] /\ hfind up K_XFPORT = Some [bs "8500"] /\
-    cl_host (r_host r) up = false /\ cl_port (r_host r) (is_tls r) up = false.
+    cl_host (r_host r) up = false /\ cl_port (spec_port (r_host r) (is_tls r)) up = false.
 Proof. exact xfh_after_host_rewrite_refuted. Qed.
 Print Assumptions C08_xfh_after_host_rewrite_refuted.
 
@@ -217,7 +290,7 @@ Theorem C08_xfh_after_host_rewrite_repaired :
   exists up sts,
     serve ex_cfg t [] r = Ok (up, sts) /\ F_host_rewrite t (r_host r) = true /\
     hfind up K_XFH = Some [bs "example.com"] /\ hfind up K_XFPORT = Some [bs "80"] /\
-    cl_host (r_host r) up = true /\ cl_port (r_host r) (is_tls r) up = true /\
+    cl_host (r_host r) up = true /\ cl_port (spec_port (r_host r) (is_tls r)) up = true /\
     upstream_host ex_cfg t [] r = Ok (bs "backend.internal:8500").
 Proof. exact xfh_after_host_rewrite_repaired. Qed.
 Print Assumptions C08_xfh_after_host_rewrite_repaired.
@@ -286,6 +359,55 @@ Theorem C08_connection_strips_managed_repaired :
     F_conn_lists (r_hdr r) (canon_key (c_clientip ex_cfg)) = true /\
     hfind up (bs "X-Client-Ip") = Some [ex_peer] /\ hfind up K_XRI = Some [ex_peer] /\
     hfind up (bs "X-Tls") = Some [bs "true"] /\
-    all_hold (clauses ex_cfg (r_hdr r) ex_peer (r_host r) true true up) = true.
+    all_hold (clauses ex_cfg (r_hdr r) ex_peer (r_host r) (spec_port (r_host r) true) true true up) = true.
 Proof. exact connection_strips_managed_repaired. Qed.
 Print Assumptions C08_connection_strips_managed_repaired.
+
+(* ---------------- OPEN findings: a Forwarded / X-Forwarded-Proto header of the client is believed ---------------- *)
+
+(* F-C08-6 (region 5): plain connection, the client sends only Forwarded: for=9.9.9.9; proto=https:
+   fabio supplies X-Forwarded-Proto: https *)
+Theorem C08_proto_from_forged_forwarded_refuted :
+  exists cfg t uuid r up sts,
+    cfg_sane cfg = true /\ wf_hdr (r_hdr r) = true /\ is_tls r = false /\
+    serve cfg t uuid r = Ok (up, sts) /\
+    hget (r_hdr r) K_XFP = [] /\ F_fwd_proto_trusted (r_hdr r) = true /\
+    hfind up K_XFP = Some [bs "https"] /\ cl_proto (is_tls r) up = false.
+Proof. exact proto_from_forged_forwarded_refuted. Qed.
+Print Assumptions C08_proto_from_forged_forwarded_refuted.
+
+(* F-C08-7 (region 6): plain connection, the client sends only X-Forwarded-Proto: https: the
+   Forwarded header fabio generates says proto=https *)
+Theorem C08_forwarded_from_forged_xfp_refuted :
+  exists cfg t uuid r up sts,
+    cfg_sane cfg = true /\ wf_hdr (r_hdr r) = true /\ is_tls r = false /\
+    serve cfg t uuid r = Ok (up, sts) /\
+    hget (r_hdr r) K_FWD = [] /\ F_xfp_trusted (r_hdr r) = true /\
+    hfind up K_FWD = Some [bs "for=1.2.3.4; proto=https; httpproto=http/1.1"] /\
+    cl_fwd (r_hdr r) ex_peer (is_tls r) up = false.
+Proof. exact forwarded_from_forged_xfp_refuted. Qed.
+Print Assumptions C08_forwarded_from_forged_xfp_refuted.
+
+(* the complement of the regions is more than the "fresh" requests: a Forwarded header without
+   proto= item lies outside and every clause holds *)
+Theorem C08_proto_supplied_nonvacuous :
+  let hdr := [(K_FWD, [bs "for=9.9.9.9;by=1.1.1.1"])] in
+  exists up sts,
+    no_region hdr = true /\ fresh hdr = false /\
+    serve ex_cfg (ex_tgt []) [] (ex_req None hdr) = Ok (up, sts) /\
+    hfind up K_XFP = Some [bs "http"] /\
+    all_hold (clauses ex_cfg hdr ex_peer (bs "example.com") (spec_port (bs "example.com") false) false true up) = true.
+Proof. exact proto_supplied_nonvacuous. Qed.
+Print Assumptions C08_proto_supplied_nonvacuous.
+
+(* ---------------- mechanism lemmas for the two anchored headers the property text does not mention ---------------- *)
+Theorem C08_reqid_overwritten : forall cfg uuid r,
+  c_reqid cfg <> [] -> hfind (r_hdr (req_with_reqid cfg uuid r)) (canon_key (c_reqid cfg)) = Some [uuid].
+Proof. exact reqid_overwritten. Qed.
+Print Assumptions C08_reqid_overwritten.
+
+Theorem C08_prefix_rule : forall cfg strip r h',
+  add_headers cfg strip r = Ok h' -> off K_XFPREFIX (c_tlsheader cfg) -> off K_XFPREFIX (c_clientip cfg) ->
+  hfind h' K_XFPREFIX = if sempty strip then hfind (r_hdr r) K_XFPREFIX else Some [strip].
+Proof. exact prefix_rule. Qed.
+Print Assumptions C08_prefix_rule.
